@@ -438,7 +438,8 @@ func kernelCases(c *Ctx, n int) {
 				m[v] = int(qd[i])
 			}
 		} else if !bytes.Equal(qd, plane) {
-			c.Violate("quantize-changed", "quantizeLevels changed a plane that already had few enough levels", map[string]any{"w": w, "h": h, "n": nl, "plane": hx})
+			// not a clause of C07 as stated (only: min and max kept, level count bounded): counted, not reported
+			c.Count("observation:quantize-changed-a-plane-with-few-levels")
 		}
 		c.Count("kernel")
 	}
